@@ -822,3 +822,46 @@ Proof. exact long_examples. Qed.
 
 Example C07_column_witnesses_wf : buf_wf long_witness /\ buf_wf sticky_witness /\ buf_wf sticky_tab_witness.
 Proof. exact long_witness_wf. Qed.
+
+(* ---- the translation tie, continued (coq/TrMot.v): lbuf_paragraphbeg ({ }) and uc_nextdir (the stepping function of f F t T) *)
+Section C07_translated_2.
+Import CLite CLiteProps GenCFuncs TrLbufBase TrUc TrMot.
+
+(* { and }: the two row loops (strcmp("\n", line)) and the clamp, for every buffer in memory, every int row, dir = 1 / -1;
+   the literal "\n" of the program is block G_lit_0a_1; *row gets the model's row, *off gets 0 *)
+Theorem C07_tr_lbuf_paragraphbeg : forall m lb bln lbs lines br bo r o dir d fuel,
+  lbuf_at m lb bln lbs lines -> lines_small lines -> str_at m G_lit_0a_1 [10%N] -> cell_at m br r -> cell_at m bo o -> br <> bo ->
+  ~ In br (G_lit_0a_1 :: lb :: bln :: lbs) -> ~ In bo (G_lit_0a_1 :: lb :: bln :: lbs) -> i32 r -> dir_ok dir ->
+  (length lines < fuel)%nat ->
+  callf cprog fuel (S (S d)) F_lbuf_paragraphbeg [VPtr lb 0; VInt dir; VPtr br 0; VPtr bo 0] m
+  = Ok (VInt 0, set_pos m br bo (fst (lbuf_paragraphbeg (map chop lines) dir r)) 0).
+Proof. exact tr_lbuf_paragraphbeg. Qed.
+Print Assumptions C07_tr_lbuf_paragraphbeg.
+
+(* uc_nextdir(&s, beg, dir): s is a pointer cell (block bs) holding a pointer into the string block b *)
+Theorem C07_tr_uc_nextdir : forall m b bs str ob p dir d fuel,
+  str_at m b str -> bytes_lt256 str -> nth_error m bs = Some [VPtr b (Z.of_nat p)] -> bs <> b ->
+  (ob <= p <= length str)%nat -> (length str < fuel)%nat ->
+  callf cprog fuel (S (S (S d))) F_uc_nextdir [VPtr bs 0; VPtr b (Z.of_nat ob); VInt dir] m
+  = let '(s, p') := nextdir_model str ob p dir in Ok (VInt (b2z s), upd m bs [VPtr b (Z.of_nat p')]).
+Proof. exact tr_uc_nextdir. Qed.
+Print Assumptions C07_tr_uc_nextdir.
+
+(* they run: } from row 0 of "ab\n" "\n" "cd\n" lands on the blank row 1, { from row 2 too; uc_nextdir steps over "é" *)
+Example C07_tr_paragraph_runs :
+  let lines := [[97; 98; 10]; [10]; [99; 100; 10]]%N in
+  let G := ex_G in
+  let st : block := repeat (VInt 0) 64 ++ [VPtr (G + 1) 0; VInt 0; VInt 3; VInt 4] ++ repeat (VInt 0) 7 in
+  let mem r := cglobals ++ [st; [VPtr (G + 2) 0; VPtr (G + 3) 0; VPtr (G + 4) 0; VInt 0];
+                            cstr_block (zb (nthl lines 0)); cstr_block (zb (nthl lines 1)); cstr_block (zb (nthl lines 2)); [VInt r]; [VInt 7]] in
+  let run dir r := callf cprog 100 10 F_lbuf_paragraphbeg [VPtr G 0; VInt dir; VPtr (G + 5) 0; VPtr (G + 6) 0] (mem r) in
+  run 1 0 = Ok (VInt 0, set_pos (mem 0) (G + 5) (G + 6) 1 0) /\ lbuf_paragraphbeg (map chop lines) 1 0 = (1, 0) /\
+  run (-1) 2 = Ok (VInt 0, set_pos (mem 2) (G + 5) (G + 6) 1 0) /\ lbuf_paragraphbeg (map chop lines) (-1) 2 = (1, 0) /\
+  run 1 1 = Ok (VInt 0, set_pos (mem 1) (G + 5) (G + 6) 2 0) /\ lbuf_paragraphbeg (map chop lines) 1 1 = (2, 0) /\
+  (let ms := [cstr_block [97; 195; 169; 98]; [VPtr 0 1]] in
+   callf cprog 100 10 F_uc_nextdir [VPtr 1 0; VPtr 0 0; VInt 1] ms = Ok (VInt 0, [cstr_block [97; 195; 169; 98]; [VPtr 0 3]]) /\
+   nextdir_model [97; 195; 169; 98]%N 0 1 1 = (false, 3%nat) /\
+   callf cprog 100 10 F_uc_nextdir [VPtr 1 0; VPtr 0 0; VInt (-1)] [cstr_block [97; 195; 169; 98]; [VPtr 0 3]]
+   = Ok (VInt 0, [cstr_block [97; 195; 169; 98]; [VPtr 0 1]])).
+Proof. cbv zeta. repeat match goal with |- _ /\ _ => split end; vm_compute; reflexivity. Qed.
+End C07_translated_2.
